@@ -143,11 +143,11 @@ def rand_script(rng, big=False):
     return T.serialize(cmds)
 
 
-def rand_leaf(rng, pool=None):
+def rand_leaf(rng, pool=None, big_ok=True):
     if pool and rng.random() < 0.4:
         return rng.choice(pool)
     v = rng.choice([0xC0, 0xC0, 0xC0, 0xC1, 0xC2, 0x00, 0x01, 0xFE, 0xFF, 0x50, 256 + 0xC0, 1000])
-    lf = [(v, _script_list(rand_script(rng, big=rng.random() < 0.04)))]
+    lf = [(v, _script_list(rand_script(rng, big=big_ok and rng.random() < 0.04)))]
     if pool is not None:
         pool.append(lf)
     return lf
@@ -162,14 +162,14 @@ def rand_tree(rng, n_leaves, pool=None):
 
 def balanced(rng, depth, pool=None):
     if depth == 0:
-        return rand_leaf(rng, pool)
+        return rand_leaf(rng, pool, big_ok=False)
     return [balanced(rng, depth - 1, pool), balanced(rng, depth - 1, pool)]
 
 
 def chain(rng, depth, left, pool=None):
-    t = rand_leaf(rng, pool)
+    t = rand_leaf(rng, pool, big_ok=depth < 8)
     for _ in range(depth):
-        sib = rand_leaf(rng, pool)
+        sib = rand_leaf(rng, pool, big_ok=depth < 8)
         t = [t, sib] if left else [sib, t]
     return t
 
@@ -294,7 +294,7 @@ def _o_proves(w):
         q, par = T.output_pubkey(key, tree)
         leaves, root = T.tree_helper(tree)
         spk = b"\x51\x20" + q
-        for i in range(len(leaves)):
+        for i in (w.get("idx") or range(len(leaves))):
             script, control = T.input_script_sig(key, tree, i)
             sb = T.serialize(list(script))
             deep = (len(control) - 33) // 32 > T.MAX_TREE_DEPTH
@@ -568,7 +568,11 @@ def run(ctx):
             keyhex = rng.choice([hx(sec), hx(sec), hx(sec), "-"])
             L["outpub"].append(f"outpub@{a} {keyhex} {tk}")
             L["outprv"].append(f"outprv@{a} {d} {tk}")
-            ctx.check("cb.proves", {"tree": tk, "key": None if keyhex == "-" else keyhex, "arm": a, "nums": NUMS})
+            pidx = None
+            if big and a == "py" and ctx.tier == "quick":
+                pidx = sorted(set([0, 1, nl - 2, nl - 1] + rng.sample(range(nl), 12)))
+            ctx.check("cb.proves", {"tree": tk, "key": None if keyhex == "-" else keyhex, "arm": a, "nums": NUMS,
+                                    "idx": pidx})
             ctx.check("tweak.agree", {"d": str(d), "tree": tk, "arm": a, "secs": [s.hex() for _, s in sp]})
             # every leaf index (chains: every index on one arm, a sample on the other)
             idx = list(range(nl))
